@@ -145,7 +145,7 @@ func getFileRecords(store *transactionOnly, paths []string) ([]OpResult, error) 
 // findMissingDirs returns all paths that must be created, in reverse order
 func (fs *FS) findMissingDirs(name string) ([]string, error) {
 	if !hackpadfs.ValidPath(name) {
-		return nil, hackpadfs.ErrInvalid
+		return nil, &hackpadfs.PathError{Op: "mkdirall", Path: name, Err: hackpadfs.ErrInvalid}
 	}
 	const fsRootPath = "."
 	var paths []string
@@ -175,7 +175,7 @@ func isMissingDir(path string, info hackpadfs.FileInfo, err error) (missing bool
 	case errors.Is(err, hackpadfs.ErrNotExist):
 		return true, nil
 	case err != nil:
-		return false, err
+		return false, &hackpadfs.PathError{Op: "mkdirall", Path: path, Err: err}
 	case info.IsDir():
 		// found a directory in the chain, return early
 		return false, nil
@@ -364,7 +364,7 @@ func (fs *FS) Chmod(name string, mode hackpadfs.FileMode) error {
 
 	newMode := (file.Mode() & ^chmodBits) | (mode & chmodBits)
 	file.modeOverride = &newMode
-	return file.save()
+	return fs.wrapperErr("chmod", name, file.save())
 }
 
 // Chtimes implements hackpadfs.ChtimesFS
@@ -374,5 +374,5 @@ func (fs *FS) Chtimes(name string, atime time.Time, mtime time.Time) error {
 		return fs.wrapperErr("chtimes", name, err)
 	}
 	file.modTimeOverride = mtime
-	return file.save()
+	return fs.wrapperErr("chtimes", name, file.save())
 }
